@@ -164,12 +164,61 @@ func (c *fsClient) resolveFields() {
 			c.listField = "Stack." + f
 		}
 	}
-	for _, f := range strFields {
-		if "Stack."+f != c.listField {
-			c.dirField = "Stack." + f
+	// the directory: the string field that is the first argument of filepath.Join
+	joinArg := map[string]int{}
+	for _, f := range c.p.Funcs {
+		for _, b := range f.Blocks {
+			for _, ins := range b.Instrs {
+				call, ok := ins.(*ssa.Call)
+				if !ok {
+					continue
+				}
+				cal := call.Common().StaticCallee()
+				if cal == nil || funcKey(cal) != "path/filepath.Join" || len(call.Common().Args) != 1 {
+					continue
+				}
+				// variadic: the argument slice's element 0
+				sl, ok := call.Common().Args[0].(*ssa.Slice)
+				if !ok {
+					continue
+				}
+				al, ok := sl.X.(*ssa.Alloc)
+				if !ok {
+					continue
+				}
+				for _, ref := range *al.Referrers() {
+					ia, ok := ref.(*ssa.IndexAddr)
+					if !ok {
+						continue
+					}
+					if c0, ok := ia.Index.(*ssa.Const); !ok || c0.Int64() != 0 {
+						continue
+					}
+					for _, r2 := range *ia.Referrers() {
+						sto, ok := r2.(*ssa.Store)
+						if !ok {
+							continue
+						}
+						if u, ok := sto.Val.(*ssa.UnOp); ok {
+							if fa, ok := u.X.(*ssa.FieldAddr); ok {
+								if pt, ok := fa.X.Type().Underlying().(*types.Pointer); ok && types.Identical(pt.Elem(), c.stackT) {
+									joinArg[stt.Field(fa.Field).Name()]++
+								}
+							}
+						}
+					}
+				}
+			}
 		}
 	}
-	if c.listField == "" || c.dirField == "" || len(strFields) != 2 {
+	nDir := 0
+	for _, f := range strFields {
+		if "Stack."+f != c.listField && (joinArg[f] > 0 || len(strFields) == 2) {
+			c.dirField = "Stack." + f
+			nDir++
+		}
+	}
+	if c.listField == "" || c.dirField == "" || nDir != 1 {
 		fatalf("unresolved anchor: list-path / directory fields of Stack (string fields %v, read through ReadFile: %v)", strFields, readArg)
 	}
 }
@@ -1023,6 +1072,7 @@ func (c *fsClient) openFile(x *Exec, st *State, fr *Frame, site ssa.CallInstruct
 		} else {
 			c.okay("LOCK-EXCL", key, "flags contain O_EXCL|O_CREATE")
 		}
+		g.setFlag("lockAttempt", tTrue)
 		s2 := st.clone()
 		g2 := c.g(s2)
 		g2.failed[gk(p)] = p
